@@ -362,7 +362,7 @@ pub fn run_ops(rep: &mut Report, rng: &mut Rng, msg: &[u8]) -> Result<String, (S
 }
 
 pub fn run(ctx: &Ctx, rep: &mut Report) {
-    let n = if ctx.is_miri() { ctx.cases(40, 1600) } else { ctx.cases(150_000, 5_000_000) };
+    let n = if ctx.is_miri() { ctx.cases(40, 1600) } else { ctx.cases(150_000, 1_500_000) };
     for case in ctx.case_range(n) {
         rep.current_case = case;
         let mut rng = ctx.rng("c15", case);
